@@ -4,9 +4,9 @@ cd "$(dirname "$0")/.."
 TIER="${1:-quick}"
 for p in $(python3 -c "import json; print(' '.join(c['property_id'] for c in json.load(open('MANIFEST.json'))['checks']))"); do
   s=$(date +%s.%N)
-  out=$(./check $p --tier $TIER 2>/dev/null); rc=$?
+  ./check $p --tier $TIER >/tmp/run_all_$p.out 2>/tmp/run_all_$p.err; rc=$?
   e=$(date +%s.%N)
-  printf "%s rc=%d %.1fs %s\n" $p $rc $(echo "$e - $s" | bc) "$(echo "$out" | grep -E 'VIOLATION|KNOWN|MACHINERY' | head -3 | tr '\n' ' ' | cut -c1-200)"
+  printf "%s rc=%d %.1fs %s\n" $p $rc $(echo "$e - $s" | bc) "$(grep -E 'VIOLATION|KNOWN|MACHINERY' /tmp/run_all_$p.out | head -3 | tr '\n' ' ' | cut -c1-200)"
 done
 python3-vt - <<'PY'
 import json,jsonschema,glob
